@@ -72,6 +72,10 @@ fn check_variants(f: FullParams) {
     let want_extra = ref_extra_root(&f);
     let c = f.clone().into_compact();
     assert!(eq32(&c.elided_root().unwrap().to_byte_array(), &want_extra), "compact form carries the extra root of the layout");
+    // together with `layout_*` (full root = M(M(H2 script, H2 limit), extra root)) and `null_and_compact`
+    // (compact root = M(M(H2 script, H2 limit), elided root)) this gives: compaction does not change the root
+    assert!(c.is_compact() && c.signblock_witness_limit() == Some(f.signblock_witness_limit), "compaction keeps the witness limit");
+    assert!(c.signblockscript().unwrap().as_bytes() == f.signblockscript.as_bytes(), "compaction keeps the signblockscript");
     kani::cover!(true, "compared");
     core::mem::forget((f, c));
 }
@@ -95,12 +99,15 @@ macro_rules! full {
     };
 }
 //@begin prop=C19 tier=quick sha=uf mem=10 timeout=900 desc="FullParams root == reference commitment layout; field lengths per shard, contents symbolic"
-full!(layout_empty, check_layout, 0, 0, 0, []);
-full!(layout_small, check_layout, 1, 2, 3, [1]);
+full!(layout_empty, check_layout, 0, 0, 0, []); //@ timeout=1500
+full!(layout_small, check_layout, 1, 2, 3, [1]); //@ timeout=1500
 //@end
-//@begin prop=C19 tier=quick sha=uf mem=10 timeout=900 desc="compaction keeps the root / carries the extra root / Params::Full agrees"
-full!(compaction_small, check_compaction, 1, 2, 3, [1]);
+//@begin prop=C19 tier=quick sha=uf mem=10 timeout=1500 desc="compact form carries the layout's extra root and keeps script + limit (=> with layout_* and null_and_compact: compaction keeps the root)"
 full!(variants_small, check_variants, 1, 2, 3, [1]);
+full!(variants_empty, check_variants, 0, 0, 0, []);
+//@end
+//@begin prop=C19 tier=thorough sha=uf mem=16 timeout=5400 desc="direct two-computation comparisons: compaction keeps the root; Params::Full agrees"
+full!(compaction_small, check_compaction, 1, 2, 3, [1]);
 full!(params_full_small, check_params_full, 1, 2, 3, [1]);
 //@end
 //@begin prop=C19 tier=thorough sha=uf mem=12 timeout=3000 desc="further length shapes"
@@ -116,7 +123,7 @@ full!(variants_ext2, check_variants, 3, 0, 1, [2, 0]);
 #[kani::unwind(10)]
 #[kani::stub(elements::hashes::sha256::HashEngine::process_blocks, stubs::sha256_process_blocks)]
 pub fn null_and_compact() {
-    assert!(Params::Null.calculate_root().to_byte_array() == [0u8; 32], "null parameters have the all-zero root");
+    assert!(eq32(&Params::Null.calculate_root().to_byte_array(), &[0u8; 32]), "null parameters have the all-zero root");
     assert!(Params::Null.into_compact().is_none());
     let er: [u8; 32] = kani::any();
     let script = sym_vec(2);
@@ -177,8 +184,10 @@ macro_rules! hdr {
         }
     };
 }
-//@begin prop=C19 tier=quick sha=uf mem=10 timeout=900 desc="header dynafed root for (current, proposed) variant pairs with independent symbolic contents"
+//@begin prop=C19 tier=quick sha=uf mem=12 timeout=2400 desc="header dynafed root == fast-merkle(current root, proposed root), compact/compact pair with independent symbolic contents"
 hdr!(hdr_compact_compact, any_compact(), any_compact());
+//@end
+//@begin prop=C19 tier=thorough sha=uf mem=16 timeout=5400 desc="header dynafed root, full/full pair with independent symbolic contents"
 hdr!(hdr_full_full, Params::Full(make_full(1, 1, 1, &[1])), Params::Full(make_full(1, 1, 1, &[1])));
 //@end
 //@begin prop=C19 tier=thorough sha=uf mem=12 timeout=3000 desc="header dynafed root, remaining variant pairs"
